@@ -594,7 +594,7 @@ func (fr *frame) mapKey(k value) value {
 	case symInt:
 		fr.i.px.abort("unsupported", "symbolic integer map key")
 	case *rope:
-		return kv.concretizeString(fr)
+		return kv // compared symbolically by omap.findSym
 	case iface:
 		if containsSym(kv.v) {
 			if r, ok := kv.v.(*rope); ok {
@@ -745,7 +745,7 @@ func (fr *frame) markImpure(instr ssa.Instruction) {
 		imp = true
 	case *ssa.Call:
 		imp = true
-		if c := in.Call.StaticCallee(); c != nil && c.String() == "(*golang.org/x/exp/rand.PCGSource).Uint64" {
+		if c := in.Call.StaticCallee(); c != nil && fnMetaOf(c).name == "(*golang.org/x/exp/rand.PCGSource).Uint64" {
 			imp = false
 		}
 	}
